@@ -121,9 +121,19 @@ def run_job(prop, hname, params, tier, seed):
             v['float_replay'] = 'reproduced' if lab in fc.failed else 'not-reproduced'
             v['float_failed'] = sorted(set(fc.failed))
         except ReplayMismatch as e:
-            v['float_replay'] = 'mismatch: %s' % e
+            # the model only fixes the inputs that existed when the obligation was stated: an assumption about inputs introduced
+            # *later* in the harness may fail on their default values; the obligation itself has been re-evaluated by then
+            if lab in fc.failed:
+                v['float_replay'] = 'reproduced'
+                v['float_failed'] = sorted(set(fc.failed))
+            else:
+                v['float_replay'] = 'mismatch: %s' % e
         except BaseException as e:  # noqa
-            v['float_replay'] = 'error: %s: %s' % (type(e).__name__, str(e)[:300])
+            if lab in fc.failed:
+                v['float_replay'] = 'reproduced'
+                v['float_failed'] = sorted(set(fc.failed))
+            else:
+                v['float_replay'] = 'error: %s: %s' % (type(e).__name__, str(e)[:300])
             if os.environ.get('SYMX_DEBUG_REPLAY'):
                 traceback.print_exc()
         if h.replay_real is not None and v['float_replay'] == 'reproduced':
